@@ -15,6 +15,11 @@ f_converted = z3.Function('convert_yielded', sym.SeqAwS, sym.Aw)     # tornado: 
 f_gathered = z3.Function('asyncio_gather', sym.SeqAwS, sym.Aw)
 
 
+# Stream.emit is the entry point of every pipeline: the properties about what is delivered (none lost, order, spacing) depend on the
+# push happening exactly once, with the loop thread marked asynchronous while downstream nodes (which may emit further) run
+ENTRY = ['C01', 'C02', 'C08', 'C13', 'C14']
+
+
 class EmitPublic(CoreSummaries, Contract):
     """variants: the thread flag is absent / present before the call; the node has a loop / has none"""
     file = CORE
@@ -112,13 +117,13 @@ class EmitPublic(CoreSummaries, Contract):
     def clauses(self):
         restore = ('flag_now() == flag0' if self.flag_present else 'flag_now() == False or flag_now() is None')
         return [
-            Clause('C03.direct_mode_pushes_exactly_once', ['C03'], when='return',
+            Clause('C03.direct_mode_pushes_exactly_once', ['C03'] + ENTRY, when='return',
                    text='implies(direct_mode(), emitted == [x] and emitted_md == [metadata] and len(sync_calls) == 0)'),
             Clause('C03.direct_mode_returns_one_awaitable_covering_every_downstream_result', ['C03'], when='return',
                    text=('implies(direct_mode(), result == converted(emit_rets[0]))' if self.has_loop
                          else 'implies(direct_mode(), result is None)'),
                    note='with a loop the caller can await everything that happens downstream; without a loop the call is purely synchronous'),
-            Clause('C03.blocking_mode_hands_the_push_to_sync_once', ['C03'], when='return',
+            Clause('C03.blocking_mode_hands_the_push_to_sync_once', ['C03'] + ENTRY, when='return',
                    text='implies(not direct_mode(), emitted == [] and len(sync_calls) == 1 and sync_calls[0][0] == self.loop '
                         'and is_nested_fn(sync_calls[0][1], "_"))',
                    note='the push itself happens on the loop thread inside the nested coroutine (contract Stream.emit.<locals>._)'),
@@ -200,7 +205,7 @@ class EmitBlockingCoroutine(EmitPublic):
 
     def clauses(self):
         if self.start == 0:
-            return [Clause('C03.blocking_mode_pushes_once_and_waits_for_everything_downstream', ['C03'], when='yield:1',
+            return [Clause('C03.blocking_mode_pushes_once_and_waits_for_everything_downstream', ['C03'] + ENTRY, when='yield:1',
                            text='emitted == [x] and emitted_md == [metadata] and len(gathered) == 1 and gathered[0] == emit_rets[0] '
                                 'and flag_now() == True',
                            note='the calling thread stays blocked in sync() until every downstream awaitable has completed'),
